@@ -232,7 +232,71 @@ Fixpoint walk (fuel : nat) (f : fs) (cur : loc) (todo : list comp) : option loc 
 Definition FUEL : nat := 96.
 Definition canon (f : fs) (p : list comp) : option loc := walk FUEL f [] p.
 
+(* ------------------------------------------------------------------ ensure_real_parent_within_root (791680340) *)
+
+Definition is_link (o : option node) : bool := match o with Some (Link _) => true | _ => false end.
+Definition is_some {A} (o : option A) : bool := match o with Some _ => true | None => false end.
+
+(* symlink_metadata(p): everything but the last component is resolved, the last one is not followed *)
+Definition lstat (f : fs) (p : list comp) : option node :=
+  match p with
+  | [] => None
+  | _ => match walk FUEL f [] (removelast p) with
+         | None => None
+         | Some cur =>
+             match lookup_top f cur with
+             | Some Dir => match last p CCur with
+                           | CNormal n => lookup f (cur ++ [n])
+                           | _ => Some Dir                       (* "/", "." , ".." of a directory *)
+                           end
+             | _ => None
+             end
+         end
+  end.
+
+(* Path::parent() repeatedly: the proper prefixes of the Path::components list, deepest first, down to "/" *)
+Definition ancestors (p : list comp) : list (list comp) :=
+  map (fun k => firstn k p) (rev (seq 1 (length p - 1))).
+
+(* the deepest ancestor that exists (lstat) is canonicalized and must be under the canonical root *)
+Fixpoint ancestors_check (f : fs) (cr : loc) (anc : list (list comp)) : bool :=
+  match anc with
+  | [] => false
+  | d :: t => if is_some (lstat f d)
+              then match canon f d with Some real => loc_prefix cr real | None => false end
+              else ancestors_check f cr t
+  end.
+
+Inductive ensured := EOk | EBad | EIo.
+
+(* p_os: the path string as the operating system resolves it; p_lex: its Path::components *)
+Definition ensure_real_parent_within_root (f : fs) (root : loc) (p_os p_lex : list comp) : ensured :=
+  if is_link (lstat f p_os) then EBad
+  else match canon f (abs root) with
+       | None => EIo                                              (* root.canonicalize()? *)
+       | Some cr => if ancestors_check f cr (ancestors p_lex) then EOk else EBad
+       end.
+
 (* ------------------------------------------------------------------ resolve_within_root *)
+
+(* before 791680340: a missing target was accepted whatever exists on the way to it *)
+Definition resolve_within_root_old (f : fs) (base root : loc) (id : str) : option (list comp) :=
+  match id with
+  | [] => None
+  | _ =>
+    if has_byte BACKSLASH id then None
+    else if rooted id then None
+    else
+      let joined := join base id in
+      if negb (starts_with (normalize_lexically joined) (normalize_lexically (abs root))) then None
+      else match canon f (join_os base id) with
+           | Some ct => match canon f (abs root) with
+                        | Some cr => if loc_prefix cr ct then Some (join_os base id) else None
+                        | None => None
+                        end
+           | None => Some (join_os base id)
+           end
+  end.
 
 Definition resolve_within_root (f : fs) (base root : loc) (id : str) : option (list comp) :=
   match id with
@@ -248,7 +312,11 @@ Definition resolve_within_root (f : fs) (base root : loc) (id : str) : option (l
                         | Some cr => if loc_prefix cr ct then Some (join_os base id) else None
                         | None => None                           (* root.canonicalize()? *)
                         end
-           | None => Some (join_os base id)                      (* target does not exist *)
+           | None =>                                             (* target does not exist *)
+               match ensure_real_parent_within_root f root (join_os base id) joined with
+               | EOk => Some (join_os base id)
+               | _ => None
+               end
            end
   end.
 
@@ -357,8 +425,6 @@ Fixpoint wopen (fuel : nat) (f : fs) (cur : loc) (todo : list comp) : option loc
     end
   end.
 
-Definition is_link (o : option node) : bool := match o with Some (Link _) => true | _ => false end.
-
 (* create_dir_all(parent); write(path) for path = <real dir rr>/<ns> *)
 Definition write_at (fuel : nat) (f : fs) (rr : loc) (ns : list name) (data : str)
   : option (fs * loc) * list touch :=
@@ -373,8 +439,8 @@ Definition write_at (fuel : nat) (f : fs) (rr : loc) (ns : list name) (data : st
       end
   end.
 
-(* ResourceStore::add with a base path *)
-Definition add (f : fs) (base : loc) (id data : str) : robs * list touch :=
+(* ResourceStore::add with a base path, before 791680340: sanitise, join, create_dir_all(parent), write *)
+Definition add_old (f : fs) (base : loc) (id data : str) : robs * list touch :=
   match sanitize id with
   | None => (ErrBadParam, [])
   | Some ns =>
@@ -384,6 +450,28 @@ Definition add (f : fs) (base : loc) (id data : str) : robs * list touch :=
           match write_at FUEL f0 rr ns data with
           | (None, ts) => (ErrIo, ts0 ++ ts)
           | (Some _, ts) => (OkUnit, ts0 ++ ts)
+          end
+      end
+  end.
+
+(* ResourceStore::add with a base path:
+     sanitize; path = base.join(id); create_dir_all(base)?; ensure_real_parent_within_root(root, &path)?;
+     create_dir_all(path.parent())?; write(path)          (both resolved from "/" by the operating system) *)
+Definition add (f : fs) (base root : loc) (id data : str) : robs * list touch :=
+  match sanitize id with
+  | None => (ErrBadParam, [])
+  | Some ns =>
+      match mkdirp FUEL f [] base [] with
+      | (None, ts0) => (ErrIo, ts0)
+      | (Some (f0, _), ts0) =>
+          match ensure_real_parent_within_root f0 root (abs (base ++ ns)) (abs (base ++ ns)) with
+          | EBad => (ErrBadParam, ts0)
+          | EIo => (ErrIo, ts0)
+          | EOk =>
+              match write_at FUEL f0 [] (base ++ ns) data with
+              | (None, ts) => (ErrIo, ts0 ++ ts)
+              | (Some _, ts) => (OkUnit, ts0 ++ ts)
+              end
           end
       end
   end.
@@ -402,7 +490,7 @@ Definition builder_add (f : fs) (base : loc) (id data : str) : robs * list touch
   | Some ns =>
       match exists_op f base base (join_slash ns) with
       | (OkBool true, ts) => (ErrBadParam, ts)
-      | _ => add f base (join_slash ns) data
+      | _ => add f base base (join_slash ns) data
       end
   end.
 
@@ -427,8 +515,6 @@ Definition to_folder (f : fs) (dest : loc) (rels : list (list name)) : robs * li
 
 Definition RESOURCES : str := [114;101;115;111;117;114;99;101;115;47].   (* "resources/" *)
 Definition MANIFESTS : str := [109;97;110;105;102;101;115;116;115;47].    (* "manifests/" *)
-
-Definition is_some {A} (o : option A) : bool := match o with Some _ => true | None => false end.
 
 (* one zip entry name: None = the import fails, Some ids = resource identifiers stored in memory *)
 Definition archive_entry (nm : str) : option (list str) :=
